@@ -39,10 +39,14 @@ def main(ctx):
     cap = 120 if ctx.quick else 600
     sub = [dict(method='sad', subpix=2), dict(method='census', subpix=2), dict(method='ssd', subpix=2, H=3, W=4, dmin=0, dmax=1),
            dict(method='sad', subpix=4, W=6, dmin=-2, dmax=1), dict(method='sad', subpix=2, ws=1, H=1, W=5),
-           dict(method='census', subpix=4, W=5, dmin=-1, dmax=0)]
+           dict(method='census', subpix=4, W=5, dmin=-1, dmax=0),
+           # masks together with sub-pixel precision: a fractional right position needs both neighbouring columns (masks_dilatation's shifted mask)
+           dict(method='sad', subpix=2, masks=True, H=3, W=5, dmin=-1, dmax=1), dict(method='census', subpix=4, masks=True, H=3, W=5, dmin=-1, dmax=0),
+           dict(method='sad', subpix=4, masks=True, ws=1, H=1, W=4, dmin=-1, dmax=1)]
     if not ctx.quick:
         sub += [dict(method='census', subpix=4, W=6, dmin=-1, dmax=1), dict(method='ssd', subpix=4, H=3, W=5, dmin=-1, dmax=0), dict(method='sad', subpix=4, ws=5, H=5, W=7, dmin=-1, dmax=1),
-                dict(method='sad', subpix=2, H=4, W=7, dmin=-3, dmax=3)]
+                dict(method='sad', subpix=2, H=4, W=7, dmin=-3, dmax=3), dict(method='ssd', subpix=2, masks=True, H=3, W=5, dmin=-1, dmax=1),
+                dict(method='sad', subpix=4, masks=True, H=3, W=6, dmin=-2, dmax=2), dict(method='census', subpix=2, masks=True, ws=5, H=5, W=7, dmin=-1, dmax=1)]
     for kw in sub:
         J.append({'mod': MOD, 'fn': 'subpix_volume', 'mode': 'sym', 'args': dict(kw, cap=cap)})
     # ZNCC: structure for all images (shape, type of measure, NaN pattern, finite elsewhere); the value only at pinned image pairs; band selection relationally
@@ -62,9 +66,9 @@ def main(ctx):
                               'strided window sums and mask arithmetic run unmodified on z3-backed duck arrays); per (row, col, disparity) z3 decides '
                               'cost == direct window sum of the measure and NaN <=> not computable (window leaves an image, nodata in a window, centre '
                               'masked, disparity outside the pixel interval); SAD, SSD, census; scalar intervals and per-pixel grids; band selection; '
-                              'column coordinates not starting at 0; sub-pixel precision 2 and 4 (no masks): cost at k + i/subpix == measure against the right image '
+                              'column coordinates not starting at 0; sub-pixel precision 2 and 4 (with and without symbolic masks: a fractional right position is computable iff both neighbouring columns are): cost at k + i/subpix == measure against the right image '
                               'linearly interpolated between columns (scipy zoom order 1 = the linear map read off the real zoom on unit vectors)')
-    ctx.assumptions += ['C02: ZNCC: for arbitrary images only shape, type of measure / maximal cost, NaN pattern, finiteness and band selection are decided; the VALUE (a degree-6 polynomial identity with square roots that z3 does not decide within the caps) is decided at 3 pinned image pairs per job only (ground queries, one pair with zero-variance windows)', 'C02: masks combined with sub-pixel precision, subpix > 4 and step != 1 are outside the harness']
+    ctx.assumptions += ['C02: ZNCC: for arbitrary images only shape, type of measure / maximal cost, NaN pattern, finiteness and band selection are decided; the VALUE (a degree-6 polynomial identity with square roots that z3 does not decide within the caps) is decided at 3 pinned image pairs per job only (ground queries, one pair with zero-variance windows)', 'C02: subpix > 4 and step != 1 are outside the harness']
 
 
 def replay(body):
